@@ -719,18 +719,18 @@ func recordState(spec *common.Spec, p Preset, st common.BeaconState, running *co
 // ---------------------------------------------------------------- plans
 
 type planItem struct {
-	Kind     string `json:"kind"` // "mutated" | "chain"
-	Chain    int    `json:"chain"`
-	P        Preset `json:"P"`
-	NVals    int    `json:"nvals"`
-	Fork     string `json:"fork"`      // mutated: fork of the state view ("phase0".."deneb")
-	Epoch    uint64 `json:"epoch"`     // mutated: current epoch of the state
-	SlotOff  uint64 `json:"slot_off"`  // mutated: slot within the epoch
-	Upgrade  bool   `json:"upgrade"`   // mutated phase0 state at an epoch start: also record UpgradeToAltair(state)
-	Altair   int64  `json:"altair"`    // chain: ALTAIR_FORK_EPOCH (-1 never)
-	Later    int64  `json:"later"`     // chain: bellatrix/capella/deneb fork epochs start here (-1 never), one per epoch
-	Epochs   uint64 `json:"epochs"`    // chain: how many epochs to advance
-	Seed     int64  `json:"seed"`
+	Kind     string    `json:"kind"` // "mutated" | "chain"
+	Chain    int       `json:"chain"`
+	P        Preset    `json:"P"`
+	NVals    int       `json:"nvals"`
+	Fork     string    `json:"fork"`     // mutated: fork of the state view ("phase0".."deneb")
+	Epoch    uint64    `json:"epoch"`    // mutated: current epoch of the state
+	SlotOff  uint64    `json:"slot_off"` // mutated: slot within the epoch
+	Upgrade  bool      `json:"upgrade"`  // mutated phase0 state at an epoch start: also record UpgradeToAltair(state)
+	Altair   int64     `json:"altair"`   // chain: ALTAIR_FORK_EPOCH (-1 never)
+	Later    int64     `json:"later"`    // chain: bellatrix/capella/deneb fork epochs start here (-1 never), one per epoch
+	Epochs   uint64    `json:"epochs"`   // chain: how many epochs to advance
+	Seed     int64     `json:"seed"`
 	Registry []valSpec `json:"registry,omitempty"` // explicit registry (replays / TLC cases); else random from Seed
 }
 
